@@ -407,6 +407,15 @@ fn worker<T: Pay>(id: usize, offset: bool) {
                         if kind >= 10 {
                             // further entry points (free schedules only)
                             let r = std::panic::catch_unwind(std::panic::AssertUnwindSafe(|| {
+                                // a handle held as an OffsetArc is copied-on-write through OffsetArc::make_mut
+                                if kind == 10 {
+                                    if let Hd::O(mut o) = h {
+                                        let before = &*o as *const T as usize;
+                                        let p = o.make_mut() as *mut T;
+                                        let same = p as usize == before;
+                                        return (if same { Res::Granted } else { Res::Cloned }, Some(Arc::from_raw_offset(o)), p, None);
+                                    }
+                                }
                                 let mut h = h.into_arc();
                                 match kind {
                                     10 => {
